@@ -300,7 +300,10 @@ func gofmtCases(r *hx.Rand, n int) []*kase {
 	ints := []int64{0, 1, -1, 5, -5, 42, 255, 256, math.MaxInt64, math.MinInt64, 1000001, -1000001, 7, -6, 2, 1234, 3, 70}
 	strs := []string{"", "abc", "é", "日本語", "a\xffb", "\xff", "hello world", "\x00"}
 	garg := func() string {
-		switch r.Intn(6) {
+		switch r.Intn(7) {
+		case 6:
+			// *big.Int (what sprintf passes for %d of a number beyond int64)
+			return "B" + r.Pick([]string{"9223372036854775808", "-9223372036854775809", "1000000000000000019884624838656", "-1000000000000000019884624838656", "18446744073709551616", "0", "5", "-42"})
 		case 0, 1:
 			return "i" + strconv.FormatInt(ints[r.Intn(len(ints))], 10)
 		case 2:
